@@ -48,16 +48,16 @@ def trigOf (rest : List Sexp) : Option Bytes :=
 
 def handleEncode (desc pv : Sexp) (rest : List Sexp) : String :=
   match parseComposite desc, parsePVal pv with
-  | some (_, ps), some v =>
-    (match encodeMessage ps v (trigOf rest) (strictOf rest) with
+  | some (bs, ps), some v =>
+    (match encodeMessage bs ps v (trigOf rest) (strictOf rest) with
      | .ok (msg, w) => s!"(ok {hexAtom msg} (warn {if w > 0 then "t" else "f"}))"
      | .error e => errReply e)
   | _, _ => "(bad-args)"
 
 def handleDecode (desc : Sexp) (msg : Sexp) (rest : List Sexp) : String :=
   match parseComposite desc, msg.asAtom?.bind bytesOfHex? with
-  | some (_, ps), some m =>
-    (match decodeMessage ps m (strictOf rest) with
+  | some (bs, ps), some m =>
+    (match decodeMessage bs ps m (strictOf rest) with
      | .ok (v, n) => s!"(ok {printPVal v} (consumed {n}))"
      | .error e => errReply e)
   | _, _ => "(bad-args)"
